@@ -482,6 +482,8 @@ pub fn visit_all<Vz: Visitor>(v: &mut Vz) {
                 .form("[X; N]", f::array::<R, u8>)
                 .form("&[X; N]", f::ref_array::<R, u8>)
                 .form("Vec<&X>", f::vec_of_refs::<R, u8>)
+                .form("ReadSlice (region-backed)", f::read_item::<S>)
+                .form("ReadSlice (borrowed from owned)", f::borrowed_item::<S>)
                 .rform("reserve_items(&Vec<X>)", f::res_refs::<R, Vec<u8>>)
                 .cloneable()
                 .serde()
@@ -673,6 +675,25 @@ pub fn visit_all<Vz: Visitor>(v: &mut Vz) {
                 .serde()
                 .debug()
                 .flags("vector plain strings"),
+        );
+    }
+    {
+        // both sides keep their offsets in stride-compressed containers: a side that has only seen empty items
+        // (or nothing) occupies no heap at all, yet is not in its default state
+        type S = Res<Consec<Owned<u8>, IO>, Consec<Str<Owned<u8>>, IO>>;
+        type R = <S as Spec>::R;
+        type V = Result<Vec<u8>, String>;
+        v.visit(
+            Entry::<S>::new(vec![Ok(vec![]), Err(String::new()), Ok(vec![1, 2]), Err("é".to_string())])
+                .form("Result<Vec<u8>, String>", f::owned::<R, V>)
+                .form("&Result<Vec<u8>, String>", f::by_ref::<R, V>)
+                .form("Result<&Vec<u8>, &String>", f::res_as_ref::<R, Vec<u8>, String>)
+                .form("Result<&[u8], &str>", |r: &mut R, v: &V| r.push(v.as_ref().map(|s| s.as_slice()).map_err(|e| e.as_str())))
+                .rform("reserve_items(&Result<Vec<u8>, String>)", f::res_refs::<R, V>)
+                .cloneable()
+                .serde()
+                .debug()
+                .flags("plain strings"),
         );
     }
     {
